@@ -158,8 +158,8 @@ Proof.
   assert (Hl : a < length (actors s)) by (eapply nth_error_lt; exact Hg).
   rewrite (set_pend_TA _ _ _ _ (get_set_same _ _ _ Hl)), set_actor_twice.
   rewrite FUEL_eq.
-  ra_exec Hl. rewrite set_actor_twice.
-  unfold exec1 at 1. cbn [self_of]. rewrite (get_set_same _ _ _ Hl).
+  ra_exec Hl. rewrite !set_actor_twice.
+  unfold exec1. cbn [self_of]. rewrite !(get_set_same _ _ _ Hl).
   cbn [a_zombie a_parent a_inst a_cons upd_pend set_mb]. rewrite Hz, Hp.
   destruct (take_until_panic acts) as [pre panics].
   match goal with |- context[run_atomic ?f ?s0 ?t] => set (s1 := s0); set (fu := f) end.
@@ -171,8 +171,9 @@ Proof.
   - destruct (grows_olog_run_atomic fu s1 (TA a)) as [l Hgl]. exists l. rewrite Hgl, Ho, <- app_assoc. reflexivity.
   - rewrite <- Hgh.
     assert (Hg1 : exists y, get s1 a = Some y /\ a_parent y = Some p).
-    { unfold s1. erewrite set_pend_TA by (apply (get_set_same (set_actor s a _) a _ Hl)).
-      eexists. split; [apply (get_set_same (add_obs (set_actor s a _) _) a _ Hl)|]. cbn. exact Hp. }
+    { assert (Hga : forall Y o, get (add_obs (set_actor s a Y) o) a = Some Y) by (intros; apply (get_set_same s a _ Hl)).
+      unfold s1. rewrite (set_pend_TA _ _ _ _ (Hga _ _)).
+      eexists. split; [eapply get_set_same'; apply Hga|]. cbn. exact Hp. }
     destruct Hg1 as (y & Hy & Hpy).
     apply (ghost_run_atomic_nonroot fu s1 (TA a) y p Hy Hpy).
 Qed.
